@@ -557,10 +557,13 @@ func c06RunFuncs(u fw.Unit) fw.Result {
 			minA = 1
 		}
 		for arity := minA; arity <= maxA && arity <= 3; arity++ {
-			if arity == 3 && u.Tier == "quick" && maxA > minA && !variadic {
-				continue
-			}
 			tuples := c06ArgTuples(arity)
+			if arity == 3 && u.Tier == "quick" && maxA > minA && !variadic {
+				// an optional third argument: in quick all triples over a reduced domain (NULL, '', 'abc', 2, 7, -1, 'ff')
+				tuples = nil
+				red := []int{0, 1, 2, 8, 9, 4, 13}
+				sequences(3, len(red), func(ix []int) { tuples = append(tuples, []int{red[ix[0]], red[ix[1]], red[ix[2]]}) })
+			}
 			cols := []string{"a1", "a2", "a3"}[:arity]
 			sql := fmt.Sprintf("SELECT %s(%s) AS r FROM stream", name, strings.Join(cols, ", "))
 			var rows []Row
